@@ -108,10 +108,10 @@ CMR_ERROR testEquimodularity(
     else
     {
       kTranspose = 0;
-      CMR_CALL( CMRequimodularTest(cmr, transposed, &propertyOriginal, &kTranspose, &params, &stats,
+      CMR_CALL( CMRequimodularTest(cmr, transposed, &propertyTranspose, &kTranspose, &params, &stats,
         timeLimit - stats.totalTime) );
       fprintf(stderr, "Determined in %f seconds that its transpose is ", (clock() - startClock) * 1.0 / CLOCKS_PER_SEC);
-      if (propertyOriginal)
+      if (propertyTranspose)
         fprintf(stderr, "equimodular with determinant gcd %" PRId64 ".\n", kTranspose);
       else
         fprintf(stderr, "NOT equimodular.\n");
